@@ -2271,6 +2271,8 @@ func (m *Msg) WriteToSkipMiddleware(writer io.Writer, middleWareType MiddlewareT
 	mw := &msgWriter{writer: writer, charset: m.charset, encoder: m.encoder}
 	mw.writeMsg(m.applyMiddlewares(m))
 	m.middlewares = origMiddlewares
+	// writeMsg counts the header lines it writes; like WriteTo, start the next render from zero
+	m.headerCount = 0
 	return mw.bytesWritten, mw.err
 }
 
